@@ -22,7 +22,7 @@ package envelope
 //@   requires forall i int trigger keypairs[i] :: 0 <= i && i < len(keypairs) ==> pubKeyOK(keypairs[i])
 // validation loop: the running total is the spec sum; every grant seen names a recipient key, so
 // whatever number L of shares is dealt out, all of the first min(sum, L) land in an openable grant
-//@   loop 1 invariant -1 <= rangeindex && rangeindex < len(grants) && grantShares == sumsc(grants, rangeindex + 1) && grantShares <= 4294967295
+//@   loop 1 invariant -1 <= rangeindex && rangeindex < len(grants) && grantShares == sumsc(grants, rangeindex + 1) && rangeindex + 1 <= grantShares && grantShares <= 4294967295
 //@   loop 1 invariant forall L int trigger reach(grants, rangeindex + 1, L) :: L >= 0 ==> reach(grants, rangeindex + 1, L) == min(sumsc(grants, rangeindex + 1), L)
 //@   loop 1 invariant forall k int trigger gcAt(grants, k) :: 0 <= k && k <= rangeindex ==> gcAt(grants, k) != nil && nkp(grants, k) > 0
 //@   loop 1 invariant forall k int, m int trigger kpAt(grants, k, m) :: 0 <= k && k <= rangeindex && 0 <= m && m < nkp(grants, k) ==> kpAt(grants, k, m) < len(keypairs)
